@@ -84,6 +84,21 @@ def mk_index(t, dims, form, ity, it, jt=None, extra=None, mode='read', op='=', r
     elif rhs == 'tensor':
         regions.append(treg('b', t, rd))
         wp, rp, wa, ra, rw, rr = ', const %s& b' % tensor_t(t, rd), ', const %s* b' % ct, ['b'], ['b'], 'b', 'b[k]'
+    elif rhs == 'expr':
+        regions += [treg('b', t, rd), treg('c', t, rd)]
+        wp, rp, wa, ra, rw, rr = ', const %s& b, const %s& c' % (tensor_t(t, rd), tensor_t(t, rd)), ', const %s* b, const %s* c' % (ct, ct), ['b', 'c'], ['b', 'c'], '(b*c - b)', '(b[k]*c[k] - b[k])'
+    elif rhs == 'evalexpr':   # a right-hand side that must be evaluated into a temporary first (matrix-vector / matrix-matrix product)
+        assert len(rd) in (1, 2)
+        if len(rd) == 1:
+            regions += [treg('b', t, [rd[0], 3]), treg('c', t, [3])]
+            wp = ', const %s& b, const %s& c' % (tensor_t(t, [rd[0], 3]), tensor_t(t, [3]))
+            rr = '(b[k*3+0]*c[0] + b[k*3+1]*c[1] + b[k*3+2]*c[2])'
+        else:
+            regions += [treg('b', t, [rd[0], 3]), treg('c', t, [3, rd[1]])]
+            wp = ', const %s& b, const %s& c' % (tensor_t(t, [rd[0], 3]), tensor_t(t, [3, rd[1]]))
+            rr = '(b[(k/%d)*3+0]*c[0*%d+(k%%%d)] + b[(k/%d)*3+1]*c[1*%d+(k%%%d)] + b[(k/%d)*3+2]*c[2*%d+(k%%%d)])' % ((rd[1],) * 9)
+        rp, wa, ra, rw = ', const %s* b, const %s* c' % (ct, ct), ['b', 'c'], ['b', 'c'], '(b % c)'
+        mode_cmp = 'ALG'
     elif rhs == 'self':     # overlapping index views of the same tensor under noalias()
         soff = list(noalias_src)
         regions += [{'name': 'sidx', 'ety': 'i32', 'cells': n, 'kind': 'raw', 'role': 'in', 'init': 'ints', 'ints': soff}, it_region('st', ity, it_dims, soff)]
@@ -114,6 +129,22 @@ def mk_mask(t, dims, op, rhs):
     elif rhs == 'tensor':
         regions.append(treg('b', t, dims))
         wp, rp, wa, ra, rw, rr = ', const %s& b' % tensor_t(t, dims), ', const %s* b' % ct, ['b'], ['b'], 'b', 'b[k]'
+    elif rhs in ('evalexpr', 'transexpr'):
+        # right-hand sides that must be evaluated into a temporary first (separate requires_evaluation overloads of every operator)
+        assert len(dims) == 2
+        M, N = dims
+        if rhs == 'evalexpr':
+            regions += [treg('b', t, [M, 3]), treg('c', t, [3, N])]
+            wp, rp = ', const %s& b, const %s& c' % (tensor_t(t, [M, 3]), tensor_t(t, [3, N])), ', const %s* b, const %s* c' % (ct, ct)
+            rw = '(b % c)'
+            rr = '(b[(k/%d)*3+0]*c[0*%d+(k%%%d)] + b[(k/%d)*3+1]*c[1*%d+(k%%%d)] + b[(k/%d)*3+2]*c[2*%d+(k%%%d)])' % ((N,) * 9)
+        else:
+            regions += [treg('b', t, [N, M]), treg('c', t, dims)]
+            wp, rp = ', const %s& b, const %s& c' % (tensor_t(t, [N, M]), tensor_t(t, dims)), ', const %s* b, const %s* c' % (ct, ct)
+            rw = '(trans(b) + c)'
+            rr = '(b[(k%%%d)*%d+(k/%d)] + c[k])' % (N, M, N)
+        wa, ra = ['b', 'c'], ['b', 'c']
+        mode = 'ALG'
     else:
         regions += [treg('b', t, dims), treg('c', t, dims)]
         wp, rp, wa, ra, rw, rr = ', const %s& b, const %s& c' % (tensor_t(t, dims), tensor_t(t, dims)), ', const %s* b, const %s* c' % (ct, ct), ['b', 'c'], ['b', 'c'], '(b*c - b)', '(b[k]*c[k] - b[k])'
@@ -223,12 +254,25 @@ def witnesses(tier, seed):
             W.append(mk_index(T3[k % 3], [P], 'flat', ITS[k % 3], [rng.randrange(P) for _ in range(rng.randrange(1, 5))], nonconst=True))
     k += 1
     W.append(mk_index('f64', [2, 3, 4], 'nd', 'i32', [rng.randrange(24) for _ in range(8)], it_dims=[2, 2, 2], nonconst=True))
+    # expression right-hand sides, elementwise and evaluation-requiring, for every operator and the main view forms
+    for op in ALLOPS:
+        for rhs in ('expr', 'evalexpr'):
+            k += 1
+            tt = ['f64', 'f32'][k % 2]
+            W.append(mk_index(tt, [11], 'flat', ITS[k % 3], rng.sample(range(11), 5), mode='write', op=op, rhs=rhs))
+            W.append(mk_index(tt, [9], 'flat', ITS[k % 3], rng.sample(range(9), 9), mode='write', op=op, rhs=rhs))
+            if rhs == 'expr':     # the two-index-tensor view has no overload for right-hand sides needing evaluation (rejected at compile time everywhere)
+                W.append(mk_index(tt, [4, 5], 'axes', ITS[k % 3], rng.sample(range(4), 3), rng.sample(range(5), 4), mode='write', op=op, rhs=rhs))
     # boolean masks: symbolic, all 2^n masks at once
     for dims in [[1], [3], [7], [8], [12], [3, 4], [4, 5]] + ([] if quick else [[16], [17], [2, 3, 3], [5, 6]]):
         for op in ALLOPS:
             for rhs in ('scalar', 'tensor', 'expr'):
                 k += 1
                 W.append(mk_mask(T3[k % 3], dims, op, rhs))
+            if len(dims) == 2:
+                for rhs in ('evalexpr', 'transexpr'):
+                    k += 1
+                    W.append(mk_mask(['f64', 'f32'][k % 2], dims, op, rhs))
     return group_sort(W)
 
 
